@@ -106,6 +106,7 @@ extern "C" void harness_c36_real_imag()
     // as_real_imag does not accept symbols ("Not Implemented"): the unevaluated structure comes from radicals
     verif_mode_real();
     ve::Env env;
+    env.sqrt_only = true;
     RCP<const Integer> a = vs::sym_integer("a", -B, B), b = vs::sym_integer("b", -B, B), c = vs::sym_integer("c", -B, B);
     RCP<const Number> z = Complex::from_two_nums(*a, *b);
     RCP<const Basic> s2 = sqrt(integer(2)), s3 = sqrt(integer(3));
